@@ -71,7 +71,7 @@ def value_pool(prop):
     if prop == "skip_initial_space":
         return ["true", "True", "TRUE", "false", "False", "FALSE", "yes", "no", "1", "0", "", "x"]
     if prop in ("header", "sheet"):
-        return ["0", "1", "2", "3", "17", "1000", "-1", "-2", "x", "", "1.5", "1e3", "one", "0x1", "- 1", "１"]
+        return ["0", "1", "2", "3", "17", "1000", "-1", "-2", "x", "", "1.5", "1e3", "one", "0x1", "- 1", "１", "1_0", "1_000", "١٠", "１２", "२", "+3", " 4 ", "007"]
     if prop == "encoding":
         return ENCODINGS
     if prop == "allowed_characters":
